@@ -145,6 +145,14 @@ InsertBelowData(vars, inst, btw) ==
 \*                             (isolated: the caller's data shadows the fill's enclosing loops;
 \*                             django: wrong layer when the slot was passed through a fill;
 \*                             a {% with %} around the fill is overridden by an enclosing loop).
+\*  RenderContextExposedInIsolated : in isolated mode Component.render(context=c) exposes c to the
+\*                             rendered component's template (only the template tag isolates).
+\*  NestedRootCallbackKeyError : a component tag evaluated under the context of a component that
+\*                             belongs to ANOTHER render queue (isolated mode: default content
+\*                             rendered through {{ default }} inside a page-level fill, inside a
+\*                             component placed in that fill, which is a render root of its own)
+\*                             crashes with a bare KeyError (post-render callback registered with
+\*                             the wrong root).
 \*  DynamicUsesLiveContext   : a component rendered through the dynamic component inside another
 \*                             component receives the caller's context as it is when the deferred
 \*                             render runs, i.e. without the {% with %} / {% for %} / fill layers
@@ -172,7 +180,7 @@ WithCollision(F) ==
         \/ \E j \in 1..Len(F.btw) : j # i /\ HasB(F.btw[j].b, x)
 
 (* ---------------- evaluation -------------------------------------------- *)
-\* env = [P, vars, rvars, perm, rperm, immediate, own, prov, at]; `at` is the path of the node being evaluated (unique per
+\* env = [P, vars, rvars, perm, rperm, immediate, ckey, croot, queue, own, prov, at]; `at` is the path of the node being evaluated (unique per
 \* evaluation), used as the identity of component instances.
 RECURSIVE EvalSeq(_, _, _, _)
 RECURSIVE EvalNode(_, _, _)
@@ -208,19 +216,27 @@ EvalComp(n, env, fuel) ==
                  [] n.body = "impl"  -> IF n.a = <<>> THEN <<>>
                                         ELSE << <<"default", Closure(n.a, env, <<>>, "", "")>> >>
                  [] n.body = "fills" -> Collect(n.a, 1, env, <<>>)
+      \* which render queue the new instance joins: its context names a parent component -> the
+      \* parent's root; otherwise it is a root of its own
+      root  == IF env.ckey THEN env.croot ELSE inst
       data  == Layer("data", inst, cd.b)
       \* what the callee sees of the caller (see DynamicUsesLiveContext)
       live  == Dev(env, "DynamicUsesLiveContext") /\ env.P.dyn /\ ~env.immediate
       cvars == IF live THEN env.perm ELSE env.vars
       crvars == IF live THEN env.rperm ELSE env.rvars
       \* (an isolated copy is made at the tag, from the context as it is there)
-      tvars == IF IsolatedCall(n, env) THEN ForwardedLoop(env) \o <<data>> ELSE Append(cvars, data)
-      trvars == IF IsolatedCall(n, env) THEN ForwardedLoop(env) \o <<data>> ELSE Append(crvars, data)
+      \* RenderContextExposedInIsolated (finding): the component rendered through
+      \* Component.render(context=...) sees that context even in isolated mode.
+      iso   == IsolatedCall(n, env) /\ ~(Dev(env, "RenderContextExposedInIsolated") /\ env.P.pyctx /\ env.immediate)
+      tvars == IF iso THEN ForwardedLoop(env) \o <<data>> ELSE Append(cvars, data)
+      trvars == IF iso THEN ForwardedLoop(env) \o <<data>> ELSE Append(crvars, data)
       env2  == [env EXCEPT !.vars = tvars, !.rvars = trvars, !.perm = tvars, !.rperm = trvars,
-                           !.immediate = FALSE,
+                           !.immediate = FALSE, !.ckey = TRUE, !.croot = root,
+                           !.queue = IF env.ckey THEN env.queue ELSE inst,
                            !.own = [has |-> TRUE, inst |-> inst, fills |-> fills]]
   IN IF n.body = "fills" /\ (fills = <<>> \/ ~NoDupNames(fills)) THEN Zone   \* body without any captured fill / duplicate names
      ELSE IF cd.err # "" THEN Fail(cd.err)
+     ELSE IF Dev(env, "NestedRootCallbackKeyError") /\ env.ckey /\ env.croot # env.queue THEN Fail("KeyError")
      ELSE Join(Res(<<>>, "", FALSE, << <<inst, n.c>> >>), EvalSeq(def.tpl, 1, env2, fuel - 1))
 
 EvalSlot(n, env, fuel) ==
@@ -248,7 +264,9 @@ EvalSlot(n, env, fuel) ==
                                     \* layers of the Context object the fill renders with that outlive the fill
                                     !.perm = IF env.P.mode = "isolated" THEN F.env.vars ELSE env.perm,
                                     !.rperm = IF env.P.mode = "isolated" THEN F.env.rvars ELSE env.rperm,
-                                    !.immediate = FALSE,
+                                    !.immediate = FALSE, !.queue = env.queue,
+                                    !.ckey = IF env.P.mode = "isolated" THEN F.env.ckey ELSE TRUE,
+                                    !.croot = IF env.P.mode = "isolated" THEN F.env.croot ELSE env.croot,
                                     !.prov = env.prov, !.at = env.at]
           IN EvalSeq(F.a, 1, fenv, fuel - 1)
      ELSE IF n.r THEN Fail("TemplateSyntaxError")       \* required slot without a fill
@@ -271,12 +289,13 @@ EvalNode(n, env, fuel) ==
          EvalSeq(n.a, 1, [env EXCEPT !.prov = Append(@, <<n.key, [k |-> "d", v |-> EvalKw(n.kw, env.vars)]>>)], fuel)
     [] n.t = "defref" ->                                   \* {{ default_alias }}: the slot's own default content
          LET v == Lookup(env.vars, n.x) IN
-         IF v.k = "ref" THEN EvalSeq(v.a, 1, [v.env EXCEPT !.at = env.at], fuel) ELSE Ok(<<>>)
+         IF v.k = "ref" THEN EvalSeq(v.a, 1, [v.env EXCEPT !.at = env.at, !.queue = env.queue], fuel) ELSE Ok(<<>>)
 
 Fuel == 40
 Run(P) ==
   EvalSeq(P.page, 1,
           [P |-> P, vars |-> << Layer("page", <<>>, P.ctx) >>, rvars |-> << Layer("page", <<>>, P.ctx) >>,
-           perm |-> << Layer("page", <<>>, P.ctx) >>, rperm |-> << Layer("page", <<>>, P.ctx) >>, immediate |-> TRUE, own |-> NoOwner, prov |-> <<>>, at |-> <<>>],
+           perm |-> << Layer("page", <<>>, P.ctx) >>, rperm |-> << Layer("page", <<>>, P.ctx) >>, immediate |-> TRUE,
+           ckey |-> FALSE, croot |-> <<>>, queue |-> <<>>, own |-> NoOwner, prov |-> <<>>, at |-> <<>>],
           Fuel)
 =============================================================================
